@@ -135,6 +135,15 @@ fn incomplete_verdict(e: &mut Emit, cfg: &Cfg, round: usize, plan: &Plan, ok: &[
 macro_rules! deliver { ($protos:expr, $msgs:expr, $plan:expr, $round:expr, $recv:ident) => {
     for &(s, r) in $plan.orders[$round].iter() { if Some(($round, s, r)) == $plan.drop { continue; } $protos[r].$recv(s, &mut $msgs[s].as_slice()).unwrap(); }
 } }
+/// A party's outgoing message must not depend on what it has received so far (then every interleaving of sends and receives — a party that
+/// receives before it sends, or sends to its peers one at a time — is equivalent to "everybody sends first"): re-emit after delivery and compare.
+macro_rules! resend_check { ($e:expr, $protos:expr, $msgs:expr, $send:ident, $what:expr, $id:expr, $tag:expr, $cls:expr) => {
+    { let mut same = true;
+      for (i, p) in $protos.iter().enumerate() { if $msgs[i].is_empty() { continue; }
+          let again = catch_unwind(AssertUnwindSafe(|| { let mut m = vec![]; p.$send(&mut m).unwrap(); m }));
+          if again.as_ref().map(|m| m != &$msgs[i]).unwrap_or(true) { same = false; } }
+      $e.verdict(same, &format!("mp_send_stable {} {} {}", $what, $id, $tag), &$cls, "a party's message changed after it had received its peers' messages (outgoing message depends on the delivery history)"); }
+} }
 macro_rules! finish_all { ($protos:expr, $f:expr) => {
     $protos.into_iter().map(|p| catch_unwind(AssertUnwindSafe(|| $f(p))).ok()).collect::<Vec<_>>()
 } }
@@ -176,6 +185,7 @@ fn world_inner(e: &mut Emit, cfg: &Cfg, plan: &Plan) -> Option<Vec<String>> {
         let tape = hk::take_tape();
         let msgs: Vec<Vec<u8>> = protos.iter().map(|p| { let mut m = vec![]; p.send(&mut m).unwrap(); m }).collect();
         deliver!(protos, msgs, plan, R_PK, receive);
+        if plan.drop.is_none() { resend_check!(e, protos, msgs, send, "pk", id, plan.tag, cls("send-stable")); }
         let polys: Vec<Vec<Vec<u64>>> = msgs.iter().map(|m| decode_msg(&ctx, m)).collect();
         let pks = finish_all!(protos, |p: PublicKeyGenerationProtocol| p.finish());
         let results: Vec<Option<Vec<u64>>> = pks.iter().map(|p| p.as_ref().map(|k| k.as_ciphertext().poly(0).to_vec())).collect();
@@ -198,6 +208,7 @@ fn world_inner(e: &mut Emit, cfg: &Cfg, plan: &Plan) -> Option<Vec<String>> {
         let mut protos: Vec<_> = parties.iter().map(|p| p.reveal_secret_key()).collect();
         let msgs: Vec<Vec<u8>> = protos.iter().map(|p| { let mut m = vec![]; p.send(&mut m).unwrap(); m }).collect();
         deliver!(protos, msgs, plan, R_SK, receive);
+        if plan.drop.is_none() { resend_check!(e, protos, msgs, send, "sk", id, plan.tag, cls("send-stable")); }
         let polys: Vec<Vec<Vec<u64>>> = msgs.iter().map(|m| decode_msg(&ctx, m)).collect();
         let sks = finish_all!(protos, |p: SecretKeyRevelationProtocol| p.finish());
         let results: Vec<Option<Vec<u64>>> = sks.iter().map(|p| p.as_ref().map(|k| k.data().clone())).collect();
@@ -248,6 +259,7 @@ fn world_inner(e: &mut Emit, cfg: &Cfg, plan: &Plan) -> Option<Vec<String>> {
         let tape1 = hk::take_tape();
         let msgs: Vec<Vec<u8>> = protos.iter().map(|p| { let mut m = vec![]; p.send_step1(&mut m).unwrap(); m }).collect();
         deliver!(protos, msgs, plan, R_RLK1, receive_step1);
+        if plan.drop.is_none() { resend_check!(e, protos, msgs, send_step1, "rlk1", id, plan.tag, cls("send-stable")); }
         let polys1: Vec<Vec<Vec<u64>>> = msgs.iter().map(|m| decode_msg(&ctx, m)).collect();
         hk::arm_tape();
         let step2_ok: Vec<bool> = protos.iter_mut().map(|p| catch_unwind(AssertUnwindSafe(|| p.step2())).is_ok()).collect();
@@ -255,6 +267,7 @@ fn world_inner(e: &mut Emit, cfg: &Cfg, plan: &Plan) -> Option<Vec<String>> {
         if plan.drop.map(|d| d.0) == Some(R_RLK1) { incomplete_verdict(e, cfg, R_RLK1, plan, &step2_ok); return Some(digest); }
         let msgs2: Vec<Vec<u8>> = protos.iter().map(|p| { let mut m = vec![]; p.send_step2(&mut m).unwrap(); m }).collect();
         deliver!(protos, msgs2, plan, R_RLK2, receive_step2);
+        if plan.drop.is_none() { resend_check!(e, protos, msgs2, send_step2, "rlk2", id, plan.tag, cls("send-stable")); }
         let polys2: Vec<Vec<Vec<u64>>> = msgs2.iter().map(|m| decode_msg(&ctx, m)).collect();
         let rlks = finish_all!(protos, |p: RelinKeysGenerationProtocol| p.finish());
         // rlk_j.poly(1) = finish of the round-1 h1_j messages
@@ -308,6 +321,7 @@ fn world_inner(e: &mut Emit, cfg: &Cfg, plan: &Plan) -> Option<Vec<String>> {
         let tape = hk::take_tape();
         let msgs: Vec<Vec<u8>> = protos.iter().map(|p| { let mut m = vec![]; p.send(&mut m).unwrap(); m }).collect();
         deliver!(protos, msgs, plan, R_KS, receive);
+        if plan.drop.is_none() { resend_check!(e, protos, msgs, send, "ks", id, plan.tag, cls("send-stable")); }
         let polys: Vec<Vec<Vec<u64>>> = msgs.iter().map(|m| decode_msg(&ctx, m)).collect();
         let cts = finish_all!(protos, |p: KeySwitchProtocol| p.finish());
         if plan.drop.map(|d| d.0) == Some(R_KS) { incomplete_verdict(e, cfg, R_KS, plan, &cts.iter().map(|p| p.is_some()).collect::<Vec<_>>()); return Some(digest); }
@@ -340,6 +354,7 @@ fn world_inner(e: &mut Emit, cfg: &Cfg, plan: &Plan) -> Option<Vec<String>> {
         let tape = hk::take_tape();
         let msgs: Vec<Vec<u8>> = protos.iter().map(|p| { let mut m = vec![]; p.send(&mut m).unwrap(); m }).collect();
         deliver!(protos, msgs, plan, R_DEC, receive);
+        if plan.drop.is_none() { resend_check!(e, protos, msgs, send, "dec", id, plan.tag, cls("send-stable")); }
         let polys: Vec<Vec<Vec<u64>>> = msgs.iter().map(|m| decode_msg(&ctx, m)).collect();
         let pts = finish_all!(protos, |p: DecryptionProtocol| p.finish());
         if plan.drop.map(|d| d.0) == Some(R_DEC) { incomplete_verdict(e, cfg, R_DEC, plan, &pts.iter().map(|p| p.is_some()).collect::<Vec<_>>()); return Some(digest); }
@@ -372,6 +387,7 @@ fn world_inner(e: &mut Emit, cfg: &Cfg, plan: &Plan) -> Option<Vec<String>> {
         let tape = hk::take_tape();
         let msgs: Vec<Vec<u8>> = protos.iter().map(|p| { let mut m = vec![]; p.send(&mut m).unwrap(); m }).collect();
         deliver!(protos, msgs, plan, R_PKS, receive);
+        if plan.drop.is_none() { resend_check!(e, protos, msgs, send, "pks", id, plan.tag, cls("send-stable")); }
         let polys: Vec<Vec<Vec<u64>>> = msgs.iter().map(|m| decode_msg(&ctx, m)).collect();
         let cts = finish_all!(protos, |p: PublicKeySwitchProtocol| p.finish());
         let results: Vec<Option<Vec<u64>>> = cts.iter().map(|c| c.as_ref().map(|c| c.poly(1).to_vec())).collect();
@@ -449,6 +465,7 @@ fn world_inner(e: &mut Emit, cfg: &Cfg, plan: &Plan) -> Option<Vec<String>> {
             e.verdict(wrong_send && wrong_recv, &format!("mp_c2s_roles c2s {} {}", id, plan.tag), &cls("c2s-roles"), "party 0 could send or another party could receive");
             c2s_msgs = msgs.iter().map(|m| decode_msg(&ctx, m)).collect();
             deliver!(protos, msgs, plan, R_C2S, receive);
+        if plan.drop.is_none() { resend_check!(e, protos, msgs, send, "c2s", id, plan.tag, cls("send-stable")); }
             finish_all!(protos, |p: CipherToSharesProtocol<Vec<u64>>| p.finish(&enc))
         };
         if plan.drop.map(|d| d.0) == Some(R_C2S) { incomplete_verdict(e, cfg, R_C2S, plan, &shares.iter().map(|p| p.is_some()).collect::<Vec<_>>()); return Some(digest); }
@@ -477,6 +494,7 @@ fn world_inner(e: &mut Emit, cfg: &Cfg, plan: &Plan) -> Option<Vec<String>> {
             let msgs: Vec<Vec<u8>> = protos.iter().map(|p| { let mut m = vec![]; p.send(&mut m).unwrap(); m }).collect();
             s2c_msgs = msgs.iter().map(|m| decode_msg(&ctx, m)).collect();
             deliver!(protos, msgs, plan, R_S2C, receive);
+        if plan.drop.is_none() { resend_check!(e, protos, msgs, send, "s2c", id, plan.tag, cls("send-stable")); }
             let p0 = protos.remove(0);
             catch_unwind(AssertUnwindSafe(|| p0.finish())).ok()
         };
